@@ -19,10 +19,21 @@ func runC12(w *World) {
 	w.MaxSteps = 80000
 	w.Horizon = 30 * 24 * time.Hour
 	passive := w.Chance(1, 3, "passive")
-	ih, cr := 10*time.Second, 5*time.Second
+	ih, cr := Pick(w, "idlehold", 10*time.Second, 10*time.Second, 10*time.Second, time.Second), 5*time.Second
+	// a slow user Logger keeps the peer manager busy while errors are reported
+	var logMax time.Duration
+	if w.Chance(1, 3, "slow-logger") {
+		logMax = 1200 * time.Millisecond
+		w.SlowLogger(int(logMax / time.Millisecond))
+	}
+	// (the scripts wait for the Logger too: a hold time the waiting cannot eat up)
+	hold := 3
+	if logMax > 0 {
+		hold = 30
+	}
 	handlerNotif := false
 	var handlerRet, openRet *corebgp.Notification // what the plugin returns next (nil: nothing)
-	s := NewStd1(w, Std1Opts{Dir: DirOut, Passive: passive, LocalHold: 3, RemoteHold: 3, IdleHold: ih, Retry: cr, Vary: true,
+	s := NewStd1(w, Std1Opts{Dir: DirOut, Passive: passive, LocalHold: hold, RemoteHold: uint16(hold), IdleHold: ih, Retry: cr, Vary: true,
 		Configure: func(p *PeerH) {
 			p.Plug.UpdFn = func(pl *Plug, ss *Session, idx int, b []byte) *corebgp.Notification {
 				if handlerNotif {
@@ -55,7 +66,7 @@ func runC12(w *World) {
 		w.HarnessError("C12 bystander: %v", err)
 		return
 	}
-	bound := ih + cr + time.Second
+	bound := ih + cr + time.Second + 4*logMax
 	refuseAll := func(*DialRec) int { return 2 }
 	takeAll := func() {
 		for _, d := range p.Site.DialList() {
@@ -122,6 +133,16 @@ func runC12(w *World) {
 			return
 		}
 		p.Site.DialPolicy = refuseAll
+		if st == StEstablished && w.Chance(1, 2, "dwell") {
+			// let the session get older than the idle-hold time first
+			end := w.Now() + time.Duration(w.Range(0, 15000, "dwellms"))*time.Millisecond
+			p.Speaker.KeepAlive(c, &ParsedOpen{Hold: uint16(hold)}, func() bool { return w.Now() >= end })
+			if c.LocalClosed() {
+				w.HarnessError("C12: session lost while dwelling")
+				return
+			}
+			w.Quiesce()
+		}
 		if second && dir == DirOut && st < StEstablished {
 			// an inbound connection in OpenSent next to the outbound one (zero virtual time)
 			if c2 := e.OpenConn(p, DirIn, time.Minute); c2 != nil && ExpectOpen(c2, time.Second) != nil {
@@ -158,6 +179,22 @@ func runC12(w *World) {
 		damp := true
 		name := ""
 		before := c.NFrames()
+		slept0, tInj := w.LogSlept, w.Now()
+		if w.Chance(1, 3, "concurrent-inbound") {
+			// keep the peer manager busy with something else at the very moment the
+			// error is reported: an inbound connection from the same peer
+			w.Go("concurrent-inbound", func() {
+				for i, n := 0, w.Draw(6, "ciyields"); i < n; i++ {
+					w.Yield("c12.ci")
+				}
+				ci := e.OpenConn(p, DirIn, time.Minute)
+				w.Quiesce()
+				if ci != nil && !ci.RemoteClosed() {
+					ci.FIN()
+				}
+			})
+			w.Probe("inbound-offered-concurrently-with-the-error")
+		}
 		switch kind {
 		case 0, 1: // the remote sends a protocol NOTIFICATION
 			code := Pick(w, "code", byte(1), 2, 3, 4, 5, 7)
@@ -181,7 +218,7 @@ func runC12(w *World) {
 			name = "tx-open-error"
 		case 5: // silence until the hold timer expires (OpenConfirm / Established; hold time 3 s)
 			name = "tx-hold-timer-expired"
-			w.WaitUntil("c12.silence", 5*time.Second, c.LocalClosed)
+			w.WaitUntil("c12.silence", time.Duration(hold)*time.Second+2*time.Second, c.LocalClosed)
 		case 6: // the handler returns an UPDATE error
 			handlerNotif = true
 			c.SendSeg(MkFrame(MsgUpdate, []byte{0, 0, 0, 0}))
@@ -220,7 +257,7 @@ func runC12(w *World) {
 			name, damp = "rx-cease", false
 		}
 		w.Quiesce()
-		t := w.Now()
+		t := tInj // (a slow Logger makes the settling above take time)
 		fs := NewFrames(c, before)
 		if (kind >= 2 && kind <= 7) || kind == 12 {
 			// corebgp must have sent the NOTIFICATION that starts the hold-down; take its time
@@ -260,7 +297,7 @@ func runC12(w *World) {
 			// non-damping: the peer is retried as usual and the model is unchanged
 			if passive {
 				c2 := e.OpenConn(p, DirIn, time.Minute)
-				if ExpectOpen(c2, time.Second) == nil {
+				if ExpectOpen(c2, time.Second+2*logMax) == nil {
 					w.Violate("C12/non-damping-event-damped", "after %s (history %v) an inbound connection was refused although no protocol error occurred", name, hist)
 					return
 				}
@@ -322,16 +359,17 @@ func runC12(w *World) {
 			}
 			// the edge
 			if passive {
-				w.Sleep(3*time.Millisecond + Pick(w, "aftereps", 5*time.Millisecond, 200*time.Millisecond, time.Second))
+				// (the manager learns of the error later by however long the Logger held it up)
+				w.Sleep(3*time.Millisecond + Pick(w, "aftereps", 5*time.Millisecond, 200*time.Millisecond, time.Second) + (w.LogSlept - slept0))
 				c2 := e.OpenConn(p, DirIn, time.Minute)
-				if ExpectOpen(c2, time.Second) == nil {
+				if ExpectOpen(c2, time.Second+2*logMax) == nil {
 					w.Violate("C12/hold-down-too-long", "history %v: the %v hold-down started at %v is over at %v, but an inbound connection offered at %v was still refused", hist, d, t, end, w.Now())
 					return
 				}
 				c2.FIN()
 				w.Quiesce()
 			} else {
-				if !w.WaitUntil("c12.edge", time.Second+3*time.Millisecond, func() bool { return p.Site.NDials() > nd }) {
+				if !w.WaitUntil("c12.edge", time.Second+3*time.Millisecond+(w.LogSlept-slept0)+2*logMax, func() bool { return p.Site.NDials() > nd }) {
 					w.Violate("C12/hold-down-too-long", "history %v: the %v hold-down started at %v is over at %v, but no outbound attempt followed within 1 s", hist, d, t, end)
 					return
 				}
@@ -345,7 +383,11 @@ func runC12(w *World) {
 				gap = w.Range(0, 700, "gapr")
 			}
 			if gap > 0 {
+				// attempts made meanwhile are left hanging until corebgp gives them up
+				// (fewer of them than with refusals)
+				p.Site.DialPolicy = nil
 				w.Sleep(time.Duration(gap) * time.Second)
+				p.Site.DialPolicy = refuseAll
 			}
 			takeAll()
 		}
